@@ -212,6 +212,18 @@ def dual_bound_sets(repo, fq, lower):
     return ub, lb
 
 
+def props_for(fq):
+    if fq.endswith('_solver.solve') or fq == 'lp.def_sol':
+        return ['C11']
+    if fq == 'lp.RoConstr.le_to_rc':
+        return ['C01', 'C03']
+    if fq == 'dro.Ambiguity.mix_support':
+        return ['C03', 'C04']
+    if fq == 'gcp.GCProg.to_socp':
+        return ['C18']
+    return ['C08', 'C01', 'C03']
+
+
 def run(repo):
     res = RuleResult(RULE, 'formula consumers account for every cone list', TEXT)
     res.floor = 40
@@ -243,7 +255,8 @@ def run(repo):
                                      'constraints of that formula are silently dropped by this consumer'
                                      % (fi.fq, ', '.join(sorted(fields)), root, root, f,
                                         {'qmat': 'second-order cone', 'xmat': 'exponential cone',
-                                         'lmi': 'semidefinite'}[f]), repo.where(fi)))
+                                         'lmi': 'semidefinite'}[f]), repo.where(fi),
+                                     {'props': props_for(fi.fq)}))
     for fq in LAYERED:      # the dual builders read `primal`, whatever the number of fields
         fi = repo.func(fq)
         for f in CONES:
@@ -256,7 +269,7 @@ def run(repo):
         if not ok:
             res.fail(Finding(RULE, 'gcp.Model.do_math', 'primal.%s ignored' % f,
                              'no layer of the dual construction looks at primal.%s' % f,
-                             repo.where(repo.func('gcp.Model.do_math'))))
+                             repo.where(repo.func('gcp.Model.do_math')), {'props': ['C08', 'C01', 'C03']}))
     if n_cons < 14:
         raise AnalysisError('only %d formula consumers found: extractor blind' % n_cons)
 
@@ -276,7 +289,8 @@ def run(repo):
                              'the dual built by %s can carry ub in %s / lb in %s; le_to_rc only '
                              'interprets ub == 0 (multiplier <= 0) and lb == 0 (multiplier >= 0), any '
                              'other finite bound is silently ignored in the robust counterpart'
-                             % (fq, sorted(ub), sorted(lb)), repo.where(repo.func(fq))))
+                             % (fq, sorted(ub), sorted(lb)), repo.where(repo.func(fq)),
+                             {'props': ['C08', 'C01', 'C03']}))
     # consumer side: le_to_rc uses support.ub / support.lb only in `== 0`
     lr = repo.func('lp.RoConstr.le_to_rc')
     uses = []
@@ -295,14 +309,14 @@ def run(repo):
         res.fail(Finding(RULE, lr.fq, 'support bound code',
                          'le_to_rc reads support.ub/lb other than through `== 0` tests (%d reads, %d '
                          'tests): the {0, +-inf} code shared with the dual builders no longer holds'
-                         % (len(uses), cmp_ok), repo.where(lr)))
+                         % (len(uses), cmp_ok), repo.where(lr), {'props': ['C08', 'C01', 'C03']}))
     # and the sign of the multiplier bound each test produces
     sign_ok = _le_to_rc_signs(lr)
     res.inst({'consumer': 'le_to_rc multiplier signs', 'ok': sign_ok}, sign_ok)
     if not sign_ok:
         res.fail(Finding(RULE, lr.fq, 'multiplier sign',
                          'le_to_rc must bound the multipliers by `<= 0` where support.ub == 0 and by '
-                         '`>= 0` where support.lb == 0', repo.where(lr)))
+                         '`>= 0` where support.lb == 0', repo.where(lr), {'props': ['C08', 'C01', 'C03']}))
     return res
 
 
